@@ -37,8 +37,12 @@ def run(ctx):
             env = float_facts_to_env(facts)
             # integer parameter n: `0 < n` means n >= 1
             rn = repr(("param", 1, "n"))
-            if rn in env and not env[rn].lc and env[rn].lo == 0:
-                env[rn] = Iv(1, env[rn].hi, True, env[rn].hc)
+            from ..guards import int_bounds
+            lo_n, hi_n = int_bounds(facts, ("param", 1, "n"))
+            if lo_n is not None:
+                env[rn] = Iv(lo_n, hi_n if hi_n is not None else float("inf"), True, hi_n is not None)
+            from .common import pure_call_interval
+            env["__call__"] = pure_call_interval(ctx)
             for name, term in (("m", a[0]), ("k", a[1])):
                 iv = ieval(term, env)
                 ctx.check(iv.ge(1), "R07-sizing-intervals", "%s:%s" % (f.key, name), t.span,
@@ -67,10 +71,14 @@ def run(ctx):
             for h, cargs in callers:
                 env = float_facts_to_env(facts)
                 # integer parameters: an open end `0 < n` is the closed end `1 <= n`
+                from ..guards import int_bounds
                 for pi in range(1, g.arg_count + 1):
-                    rk = repr(("param", pi, g.local_name(pi)))
-                    if rk in env and g.local_ty(pi) in ("usize", "u64", "u32") and not env[rk].lc and env[rk].lo == int(env[rk].lo):
-                        env[rk] = Iv(env[rk].lo + 1, env[rk].hi, True, env[rk].hc)
+                    pt = ("param", pi, g.local_name(pi))
+                    rk = repr(pt)
+                    if g.local_ty(pi) in ("usize", "u64", "u32"):
+                        lo_, hi_ = int_bounds(facts, pt)      # `0 < n`, `n != 0`, `!(n == 0)`, `n >= 1` all give 1 <= n
+                        if lo_ is not None or hi_ is not None:
+                            env[rk] = Iv(lo_ if lo_ is not None else 0, hi_ if hi_ is not None else float("inf"), True, hi_ is not None)
                 okc = cargs[0][0] == "const" and cargs[1][0] == "const"
                 if not okc:
                     ctx.shape("R07-sizing-intervals", h.key, h, "bucketsize / load factor are not constants at this call site")
@@ -154,4 +162,4 @@ def run(ctx):
                         n_div += 1
                         ctx.analysed_fns.add(h.key)
                         ctx.ok("R07-divisor-nonzero", "%s:%%m@%d" % (h.key, n_div), "`%% m` needs m >= 1: discharged for filters from with_properties by R07-sizing-intervals; with_params(m = 0) is the caller's contract", nontrivial=False)
-    ctx.floor("R07-divisor-nonzero", n_div, 4, "remainder operations by the iterator's m")
+    ctx.floor("R07-divisor-nonzero", n_div, 2, "remainder operations by the iterator's m (at least the reduction of the base hashes and of the combined index)")
